@@ -16,10 +16,10 @@ import (
 )
 
 type SolverCfg struct {
-	Timeout   time.Duration
-	WorkDir   string
-	Parallel  int
-	Cross     bool // confirm every unsat with a second solver
+	Timeout  time.Duration
+	WorkDir  string
+	Parallel int
+	Cross    bool // confirm every unsat with a second solver
 }
 
 type qResult struct {
@@ -459,4 +459,30 @@ func (ex *Exec) Discharge(cfg *SolverCfg, obls []*Obligation) {
 		}()
 	}
 	wg.Wait()
+	// Obligations no solver decided within the budget are tried once more, one at a time and with six times the
+	// budget: queries of this code base normally answer in well under a second, so a time-out mostly reflects a
+	// loaded machine, and "undecided" must not depend on what else is running.
+	long := *cfg
+	long.Timeout = 6 * cfg.Timeout
+	for _, set := range [][]job{jobs, again} {
+		for _, j := range set {
+			if j.ob.Result != "unknown" || j.ob.Kind == "cover" {
+				continue
+			}
+			smt := j.smt
+			if j.full != "" {
+				smt = ex.buildQuery(j.ob.PC, j.ob.Goal, false)
+			}
+			qCacheMu.Lock()
+			delete(qCache, fmt.Sprintf("%x", sha1.Sum([]byte(smt))))
+			qCacheMu.Unlock()
+			r := solve(&long, smt)
+			Retried++
+			j.ob.Secs += r.secs
+			j.ob.Result, j.ob.Solver, j.ob.Model, j.ob.Raw, j.ob.SMT = r.res, r.solver, r.model, r.raw, r.smt
+		}
+	}
 }
+
+// Retried counts the obligations that needed the sequential long-budget retry in this run.
+var Retried int
